@@ -308,6 +308,19 @@ CONTRACTS = [
     C("clear", params={}, requires={"wf": "wf(self)"}, modifies=list(FIELDS),
       ensures={"wf": "wf(self)", "V": "all(n not in V(self) for n in Node)", "E": "all(k not in E(self) for k in Key)",
                "weighted": "weighted(self) == weighted(old(self))"}),
+    C("get_incident_edges", params={"node": "Node", "order": "Opt[Int]", "size": "Opt[Int]"}, result="Bag[Key]", pure=True,
+      requires={"wf": "wf(self)"},
+      raises={"ValueError": "node not in V(self) or (order is not None and size is not None)"},
+      # listed once per role the hyperedge plays for the node
+      ensures={"result": "all(count(result, k) == (1 if k in E(self) and node in fst(k) and sel(self, k, order, size, False) else 0) + "
+                         "(1 if k in E(self) and node in snd(k) and sel(self, k, order, size, False) else 0) for k in Key)"},
+      properties=["C02", "C08"]),
+    Contract("degree[DirectedHypergraph]", "hypergraphx/measures/degree.py", ["degree"], properties=["C02", "C08"],
+      params={"hg": "Obj[DirectedHypergraph]", "node": "Node", "order": "Opt[Int]", "size": "Opt[Int]"}, result="Int", pure=True,
+      requires={"wf": "wf(hg)"},
+      raises={"ValueError": "(order is not None and size is not None) or node not in V(hg)"},
+      # the number of distinct (filtered) hyperedges containing the node, in either role
+      ensures={"result": "result == card({k for k in E(hg) if (node in fst(k) or node in snd(k)) and sel(hg, k, order, size, False)})"}),
     # ------------------------------------------------------------------ hypergraphx/measures/directed/degree.py (C12)
     Contract("in_degree", "hypergraphx/measures/directed/degree.py", ["in_degree"], properties=["C12"],
       params={"hypergraph": "Obj[DirectedHypergraph]", "node": "Node", "order": "Opt[Int]", "size": "Opt[Int]"}, result="Int", pure=True,
